@@ -1,6 +1,6 @@
 (* C16: the transcription of jq's fromstream (Fromstream.v) rebuilds every document with duplicate-free
    keys from its tostream events in document order. *)
-From Coq Require Import List NArith Bool Arith Lia ZifyN ZifyNat.
+From Coq Require Import List NArith Bool Arith Lia.
 From Verif Require Import common.Sexp c16.Stream c16.StreamProofs c16.Fromstream.
 Import ListNotations.
 Open Scope nat_scope.
@@ -206,9 +206,9 @@ Proof.
         rewrite <- upd_seq. destruct (upd (rev rp) (upd [PIdx i] fx) V); [apply R1 | reflexivity].
       * intros pre L. unfold kc. rewrite (HEAD pre L). rewrite R2.
         -- now rewrite app_v_snoc.
-        -- rewrite len_v_snoc, L. lia.
+        -- rewrite len_v_snoc, L, N2Nat.inj_add. cbn. lia.
       * intros Z. unfold kc, vnull. cbn [upd]. rewrite Z, X2. cbn [option_map set_index].
-        rewrite (R2 (VCons x VNil)); [reflexivity | cbn; lia].
+        rewrite (R2 (VCons x VNil)); [reflexivity | rewrite N2Nat.inj_add, Z; reflexivity].
   - intros _ H. congruence.
   - (* MCons *)
     intros k x IHx r IHr ND _. cbn [nodup_keys_m] in ND.
